@@ -135,6 +135,15 @@ def install():
                 _v("C15", "disk-accounting", "FAILED-THOUGH-FITS:%s" % type(e).__name__, dict(w, error=str(e)[:120], needed=nmin))
             elif ctx is not None and (nmin > len(F) or not S):
                 ctx.cell("fail-clean/" + ("no-slot" if not S else "no-granules"))
+            # the object lives on after a refused addition (add_files stops, the caller may store what did fit): its image must still
+            # be a valid filesystem - in particular no provisional allocation marks may stay behind
+            if not pre_errs:
+                post_f = bytes(self.buffer)
+                if post_f != pre:
+                    errs_f = RD.fsck(post_f)[1]
+                    self.__dict__["_v_cache"] = None
+                    if errs_f:
+                        _v("C08", "fsck", "AFTER-REFUSED-ADD:" + errs_f[0][0], dict(w, fsck=[list(map(str, x)) for x in errs_f[:4]], error=str(e)[:80]))
             raise
         if ctx is not None:
             ctx.mon("M8.disk-post.success")
